@@ -21,6 +21,7 @@ import (
 	"bytes"
 	"compress/gzip"
 	"compress/zlib"
+	"encoding/json"
 	"fmt"
 	"io"
 	"math"
@@ -991,10 +992,24 @@ func launch(g int, call func(k int) (string, string)) map[string]*tally {
 // ---------------------------------------------------------------- (c) saturation
 
 type satPlan struct {
-	codec string
-	api   int
-	level int
-	load  float64 // goroutines as a multiple of the stackless queue capacity
+	Codec string  `json:"codec"`
+	API   int     `json:"api"`
+	Level int     `json:"level"`
+	Load  float64 `json:"load"`  // goroutines as a multiple of the stackless queue capacity
+	Procs int     `json:"procs"` // GOMAXPROCS of the child process (queue capacity = Procs*2048, Procs workers)
+	Seed  int64   `json:"seed"`
+}
+
+// satResult is what the child process reports.
+type satResult struct {
+	Goroutines int               `json:"goroutines"`
+	Queue      int               `json:"queue_capacity"`
+	InputLen   int               `json:"input_len"`
+	Seconds    float64           `json:"seconds"`
+	Explicit   int64             `json:"explicit_errors"`
+	PeakRSSMiB int               `json:"peak_rss_mib"`
+	Failed     map[string]int    `json:"failed"`
+	What       map[string]string `json:"what"`
 }
 
 func peakRSSMiB() int {
@@ -1014,25 +1029,11 @@ func peakRSSMiB() int {
 	return -1
 }
 
-func runSaturation(r *mon.Run) {
-	queue := runtime.GOMAXPROCS(0) * 2048
-	var plans []satPlan
-	if r.Quick() {
-		plans = []satPlan{{"gzip", apiAppendLevel, fasthttp.CompressBestCompression, 1.5}}
-	} else {
-		for _, load := range []float64{1.25, 1.85, 2.45} {
-			plans = append(plans,
-				satPlan{"gzip", apiAppendLevel, fasthttp.CompressBestCompression, load},
-				satPlan{"deflate", apiAppendLevel, fasthttp.CompressBestCompression, load},
-				satPlan{"br", apiAppendLevel, 5, load}, // brotli 11 would need minutes for this many 100 KiB inputs
-				satPlan{"zstd", apiAppendLevel, fasthttp.CompressZstdSpeedBetter, load}, // "best" allocates tens of MiB per encoder
-				satPlan{"gzip", apiWritePlain, fasthttp.CompressBestCompression, load})
-		}
-	}
-	rnd := r.Rand("saturation", 0)
-	// ~100 KiB: a random 1 KiB block repeated with 4 mutated bytes per repetition. Best-compression
-	// deflate needs ~1 ms for it and the output is ~3 KiB, so the run is dominated by queueing, not by
-	// the monitor's memory.
+// saturationInput: ~100 KiB, a random 1 KiB block repeated with 4 mutated bytes per repetition.
+// Best-compression deflate needs ~1 ms for it and the output is ~3 KiB, so the run is dominated by
+// queueing, not by the monitor's memory.
+func saturationInput(seed int64) []byte {
+	rnd := rand.New(rand.NewSource(seed))
 	var sb bytes.Buffer
 	blk := make([]byte, 1024)
 	rnd.Read(blk)
@@ -1042,48 +1043,119 @@ func runSaturation(r *mon.Run) {
 		}
 		sb.Write(blk)
 	}
-	src := sb.Bytes()
+	return sb.Bytes()
+}
+
+// TestC22ChildSaturation is one saturation run. It lives in its own process because the capacity of
+// the stackless queue and the number of its workers are fixed from GOMAXPROCS at the first use of a
+// codec: the child is started with a small GOMAXPROCS so that "more simultaneous calls than the queue
+// holds" costs thousands, not hundreds of thousands, of goroutines - and, on a tree that compresses
+// the overflow on the callers' goroutines, a bounded number of simultaneously live encoder states.
+func TestC22ChildSaturation(t *testing.T) {
+	if os.Getenv("VERIF_C22_CHILD") != "sat" {
+		t.Skip("helper for TestC22")
+	}
+	var p satPlan
+	if err := json.Unmarshal([]byte(os.Getenv("VERIF_C22_SAT")), &p); err != nil {
+		t.Fatal(err)
+	}
+	src := saturationInput(p.Seed)
+	queue := runtime.GOMAXPROCS(0) * 2048
+	g := int(float64(queue) * p.Load)
+	var explicit atomic.Int64
+	t0 := time.Now()
+	bad := launch(g, func(int) (string, string) {
+		out, werr := compress(p.Codec, p.API, nil, src, p.Level)
+		key, what := judge(p.Codec, nil, src, out, werr)
+		if key == "explicit-error" {
+			// Write*Level to a plain io.Writer reported the overload to its caller: not silent
+			// corruption; counted, not judged (see Assume).
+			explicit.Add(1)
+			return "", ""
+		}
+		return key, what
+	})
+	res := satResult{Goroutines: g, Queue: queue, InputLen: len(src), Seconds: math.Round(time.Since(t0).Seconds()*10) / 10,
+		Explicit: explicit.Load(), PeakRSSMiB: peakRSSMiB(), Failed: map[string]int{}, What: map[string]string{}}
+	for k, e := range bad {
+		res.Failed[k] = e.n
+		res.What[k] = e.what
+	}
+	b, _ := json.Marshal(res)
+	fmt.Printf("\nSAT-RESULT %s\n", b)
+}
+
+func runSaturation(r *mon.Run) {
+	var plans []satPlan
+	best := fasthttp.CompressBestCompression
+	if r.Quick() {
+		plans = []satPlan{{Codec: "gzip", API: apiAppendLevel, Level: best, Load: 1.25, Procs: 2}}
+	} else {
+		for _, load := range []float64{1.1, 1.25, 1.5} {
+			plans = append(plans,
+				satPlan{Codec: "gzip", API: apiAppendLevel, Level: best, Load: load, Procs: 2},
+				satPlan{Codec: "deflate", API: apiAppendLevel, Level: best, Load: load, Procs: 2},
+				// brotli >= 2 and zstd other than "default" keep 10-50 MiB per encoder state: with the overflow
+				// compressed on the callers' goroutines that is a memory load of its own, not this property
+				satPlan{Codec: "br", API: apiAppendLevel, Level: 1, Load: load, Procs: 2},
+				satPlan{Codec: "zstd", API: apiAppendLevel, Level: fasthttp.CompressZstdDefault, Load: load, Procs: 2},
+				satPlan{Codec: "gzip", API: apiWritePlain, Level: best, Load: load, Procs: 2})
+		}
+		plans = append(plans, satPlan{Codec: "gzip", API: apiAppendLevel, Level: best, Load: 1.1, Procs: 4},
+			satPlan{Codec: "deflate", API: apiAppendLevel, Level: 1, Load: 1.05, Procs: 8})
+	}
 	var summary []map[string]any
+	minOffered := 0
 	for pi, p := range plans {
 		ci := baseSaturation + pi
 		if !r.Want(ci) {
 			continue
 		}
-		g := int(float64(queue) * p.load)
-		var explicit atomic.Int64
-		t0 := time.Now()
-		bad := launch(g, func(int) (string, string) {
-			out, werr := compress(p.codec, p.api, nil, src, p.level)
-			key, what := judge(p.codec, nil, src, out, werr)
-			if key == "explicit-error" {
-				// Write*Level to a plain io.Writer reported the overload to its caller: not silent
-				// corruption; counted, not judged (see Assume).
-				explicit.Add(1)
-				return "", ""
+		p.Seed = r.Rand("saturation", pi).Int63()
+		pj, _ := json.Marshal(p)
+		cmd := exec.Command(os.Args[0], "-test.run", "^TestC22ChildSaturation$", "-test.count=1", "-test.v", "-test.timeout=1500s")
+		cmd.Env = append(os.Environ(), "VERIF_C22_CHILD=sat", "VERIF_C22_SAT="+string(pj), "VERIF_REPORT=", fmt.Sprintf("GOMAXPROCS=%d", p.Procs))
+		out, err := cmd.CombinedOutput()
+		var res satResult
+		ok := false
+		if i := bytes.Index(out, []byte("SAT-RESULT ")); i >= 0 && err == nil {
+			line := out[i+len("SAT-RESULT "):]
+			if j := bytes.IndexByte(line, '\n'); j >= 0 {
+				line = line[:j]
 			}
-			return key, what
-		})
-		el := time.Since(t0).Seconds()
-		runtime.GC()
-		r.Cases(g, fmt.Sprintf("saturation/%s/%s/load=%.2f", p.codec, apiNames[p.api], p.load), true)
-		r.Event("saturation_calls_checked", g)
-		r.Event("saturation_explicit_errors", int(explicit.Load()))
-		res := map[string]any{"codec": p.codec, "api": apiNames[p.api], "level": p.level, "goroutines": g, "queue_capacity": queue,
-			"input_len": len(src), "seconds": math.Round(el*10) / 10, "explicit_errors": explicit.Load(), "peak_rss_mib": peakRSSMiB()}
-		for key, e := range bad {
-			res["failed_"+key] = e.n
+			ok = json.Unmarshal(line, &res) == nil
+		}
+		if !ok {
+			if bytes.Contains(out, []byte("panic:")) && bytes.Contains(out, []byte("valyala/fasthttp")) {
+				r.Violation(ci, "saturation-process-crash", fmt.Sprintf("saturation child (%s) crashed: %s", pj, mon.Short(out[bytes.Index(out, []byte("panic:")):], 1500)), p)
+			} else {
+				r.Inconclusive(fmt.Sprintf("saturation child (%s) gave no result: err=%v out=%s", pj, err, mon.Short(out, 600)))
+			}
+			continue
+		}
+		if res.Goroutines <= res.Queue+p.Procs {
+			r.T.Fatalf("harness bug: saturation offered %d calls to a queue of %d", res.Goroutines, res.Queue)
+		}
+		r.Cases(res.Goroutines, fmt.Sprintf("saturation/%s/%s/load=%.2f/procs=%d", p.Codec, apiNames[p.API], p.Load, p.Procs), true)
+		r.Event("saturation_calls_checked", res.Goroutines)
+		r.Event("saturation_calls_beyond_queue_capacity", res.Goroutines-res.Queue-p.Procs)
+		r.Event("saturation_explicit_errors", int(res.Explicit))
+		minOffered += res.Goroutines
+		row := map[string]any{"codec": p.Codec, "api": apiNames[p.API], "level": p.Level, "gomaxprocs": p.Procs, "goroutines": res.Goroutines,
+			"queue_capacity": res.Queue, "input_len": res.InputLen, "seconds": res.Seconds, "explicit_errors": res.Explicit, "peak_rss_mib": res.PeakRSSMiB, "failed": res.Failed}
+		for key, n := range res.Failed {
 			vkey := "saturation-" + key
 			if key == "empty-output" {
 				vkey = "stackless-overflow-empty-output"
 			}
-			r.Violation(ci, vkey, fmt.Sprintf("%d of %d concurrent %s %s(level %d) calls on a %d-byte input (stackless queue capacity %d): %s", e.n, g, p.codec, apiNames[p.api], p.level, len(src), queue, e.what),
-				map[string]any{"codec": p.codec, "api": apiNames[p.api], "level": p.level, "goroutines": g, "queue_capacity": queue, "failed": e.n, "input_len": len(src)})
+			r.Violation(ci, vkey, fmt.Sprintf("%d of %d concurrent %s %s(level %d) calls on a %d-byte input (GOMAXPROCS=%d, stackless queue capacity %d): %s", n, res.Goroutines, p.Codec, apiNames[p.API], p.Level, res.InputLen, p.Procs, res.Queue, res.What[key]),
+				map[string]any{"plan": p, "goroutines": res.Goroutines, "queue_capacity": res.Queue, "failed": n, "input_len": res.InputLen})
 		}
-		summary = append(summary, res)
+		summary = append(summary, row)
 	}
 	r.Set("saturation_runs", summary)
 	if !r.Replaying() {
-		r.Require("saturation_calls_checked", queue+1)
+		r.Require("saturation_calls_beyond_queue_capacity", 500)
 	}
 }
 
@@ -1151,7 +1223,7 @@ func probeZstdLevel0(r *mon.Run) (safe bool) {
 func TestC22(t *testing.T) {
 	r := mon.Start(t, "C22")
 	defer r.Finish()
-	r.Rule("handler case = 1-3 pipelined requests (Accept-Encoding list of 1-5 codings over {gzip deflate br zstd identity * x-gzip GZIP foo…} × q-params × separators, absent, empty, two lines) to CompressHandler/CompressHandlerLevel/CompressHandlerBrotliLevel(levels in and out of range) around a handler producing a 0…3 MiB body (size ladder around minCompressLen=200) via SetBody/Write/SetBodyString/SetBodyRaw/SetBodyStream(size|-1)/SetBodyStreamWriter, with content types, pre-set Content-Encoding and Vary; round-trip case = codec × API (Append*Level, Append*, Write*Level to bytes.Buffer / ByteBuffer / plain io.Writer) × level × input; group = same call from 1…8192 goroutines behind one barrier; saturation = load×GOMAXPROCS×2048 goroutines behind one barrier on a 100 KiB input; distinct = feature vectors (wrapper, mode, content type, pre-encoding, size class, level class, resulting coding | codec, api, level class, size class, input kind | load); non-trivial = response was compressed or pre-encoded / non-empty input / more than one goroutine")
+	r.Rule("handler case = 1-3 pipelined requests (Accept-Encoding list of 1-5 codings over {gzip deflate br zstd identity * x-gzip GZIP foo…} × q-params × separators, absent, empty, two lines) to CompressHandler/CompressHandlerLevel/CompressHandlerBrotliLevel(levels in and out of range) around a handler producing a 0…3 MiB body (size ladder around minCompressLen=200) via SetBody/Write/SetBodyString/SetBodyRaw/SetBodyStream(size|-1)/SetBodyStreamWriter, with content types, pre-set Content-Encoding and Vary; round-trip case = codec × API (Append*Level, Append*, Write*Level to bytes.Buffer / ByteBuffer / plain io.Writer) × level × input; group = same call from 1…8192 goroutines behind one barrier; saturation = a child process with GOMAXPROCS=p (queue capacity p×2048, p workers) in which load×p×2048 goroutines behind one barrier compress the same 100 KiB input; distinct = feature vectors (wrapper, mode, content type, pre-encoding, size class, level class, resulting coding | codec, api, level class, size class, input kind | load); non-trivial = response was compressed or pre-encoded / non-empty input / more than one goroutine")
 	r.Assume("decoding oracle: compress/gzip and compress/zlib of the standard library for gzip and deflate (\"deflate\" is the zlib-wrapped format, RFC 9110 8.4.1.2); for br and zstd the readers of andybalholm/brotli and klauspost/compress/zstd are driven directly (fasthttp links the same libraries, so a codec-library bug common to encoder and decoder would not be seen; transparency of fasthttp's use of them is)")
 	r.Assume("net/http.ReadResponse is the wire parser (framing: Content-Length / chunked / close)")
 	r.Assume("Accept-Encoding model written from RFC 9110 12.5.3; lists naming the chosen coding both with q>0 and q=0 are ambiguous and not judged (skipped_ambiguous_accept_encoding); an identity response is never judged against identity;q=0")
